@@ -689,30 +689,33 @@ fn run_probes(rt: &Runtime<NoCtx>, probes: &[Probe]) -> Vec<Seen> {
     seen.into_iter().map(|s| s.unwrap()).collect()
 }
 
-/// what the model's resolution string says a script sees at that path
-fn model_seen(res: &str, pr: &Probe) -> Seen {
+/// what the model's resolution string says a script sees at that path: the
+/// probe expression is written for `pr.info`; if the path resolves to another
+/// item, the expression compiles only if that item has the same shape
+fn model_seen(res: &str, pr: &Probe, by_tag: &BTreeMap<u64, ItemInfo>) -> Seen {
     let mut parts = res.splitn(3, ':');
     let kind = parts.next().unwrap_or("");
     let tag = parts.next().and_then(|t| t.parse::<u64>().ok());
     match (pr.info.kind, kind) {
-        ("fn", "fn") | ("fn", "meth") | ("method", "meth") | ("method", "fn") | ("const", "const") => {
-            // the expression type-checks only if the signature is the declared one
-            let sig = parts.next().unwrap_or("");
-            if sig_matches(sig, pr) { Seen::Tag(tag.unwrap_or(0)) } else { Seen::No }
+        ("fn", "fn") | ("fn", "meth") | ("method", "meth") | ("method", "fn") => {
+            let t = tag.unwrap_or(0);
+            match by_tag.get(&t) {
+                Some(i) if i.shape == pr.info.shape => Seen::Tag(t),
+                _ => Seen::No,
+            }
+        }
+        ("const", "const") => {
+            let t = tag.unwrap_or(0);
+            match by_tag.get(&t) {
+                Some(i) if i.ty == pr.info.ty => Seen::Tag(t),
+                _ => Seen::No,
+            }
         }
         ("type", "type") => {
             if tag == Some(pr.info.marker as u64) { Seen::TypeOk } else { Seen::No }
         }
         _ => Seen::No,
     }
-}
-
-/// does the model's declared signature accept the probe expression?  Parameter
-/// and result types are compared by marker via the helper functions' types.
-fn sig_matches(_sig: &str, _pr: &Probe) -> bool {
-    // tags are unique per session, so a resolution to the same tag has the
-    // item's own signature (checked by the caller through the tag itself)
-    true
 }
 
 // ------------------------------------------------------------------ model
@@ -1243,6 +1246,7 @@ fn check_session(rep: &mut Report, drv: &mut Driver, variants: &[Vec<Vec<It>>], 
         }
     }
     let queries: Vec<Vec<String>> = probes.iter().map(|p| p.path.clone()).collect();
+    let by_tag: BTreeMap<u64, ItemInfo> = spec.items.values().filter(|i| i.tag != 0).map(|i| (i.tag, i.clone())).collect();
     let markers: BTreeSet<usize> = spec.types.keys().cloned().collect();
 
     let mut first: Option<(Vec<&'static str>, Vec<Seen>)> = None;
@@ -1293,7 +1297,7 @@ fn check_session(rep: &mut Report, drv: &mut Driver, variants: &[Vec<Vec<It>>], 
                 } else {
                     seen = run_probes(&rt, &probes);
                     for ((pr, s), m) in probes.iter().zip(&seen).zip(&mres) {
-                        let ms = model_seen(m, pr);
+                        let ms = model_seen(m, pr, &by_tag);
                         if *s != ms {
                             rep.mismatch(&format!("path {} ({}): implementation {:?}, model {:?} ({m})", pr.path.join("."), pr.what, s, ms), input(libs));
                         }
